@@ -193,16 +193,15 @@ class Extracted:
         self.rewrites = []
         self.dropped = []
         self.notes = []
+        self.unannotated = {}
 
 
-def extract_fn(src, toks, relpath, item, spec, ex):
-    """Append the annotated text of one function to ex.pieces."""
-    name = item['fn']
+def locate_fn(toks, relpath, name, item):
     cands = rtok.find_fns(toks, name)
     want_impl = item.get('impl')
     chosen = []
     for k in cands:
-        # skip fns inside #[cfg(test)] mod tests: detected by an enclosing `mod tests`
+        # skip fns inside test / hook modules
         enc = enclosing_mods(toks, k)
         if any(m in ('tests', 'test') or m.startswith('verif_') for m in enc):
             continue
@@ -218,7 +217,189 @@ def extract_fn(src, toks, relpath, item, spec, ex):
         chosen.append(k)
     if len(chosen) != 1:
         raise Undecided('anchor-lost', 'fn %s in %s: %d candidates' % (name, relpath, len(chosen)))
-    k = chosen[0]
+    return chosen[0]
+
+
+def stmt_end(toks, i, hi):
+    """Index of the token ending the statement that starts at token i: the `;` at bracket depth 0,
+    or the closing brace of a block-like statement (if/while/loop/for/match/unsafe/{)."""
+    blocklike = toks[i].kind == 'ident' and toks[i].text in ('if', 'while', 'loop', 'for', 'match', 'unsafe') \
+        or toks[i].text == '{'
+    j = i
+    while j <= hi:
+        t = toks[j]
+        if t.kind == 'punct' and t.text in ('(', '[', '{'):
+            j = rtok.match_close(toks, j)
+            if blocklike and toks[j].text == '}':
+                # `if .. {} else ..` continues
+                if j + 1 <= hi and toks[j + 1].kind == 'ident' and toks[j + 1].text == 'else':
+                    j += 2
+                    continue
+                return j
+        elif t.kind == 'punct' and t.text == ';':
+            return j
+        j += 1
+    raise Undecided('anchor-lost', 'statement end not found')
+
+
+def region_edits(src, toks, relpath, name, spec, ex, lo_tok, hi_tok, body_lo_tok, body_hi_tok):
+    """Edits (loop invariants, anchored hints, rewrites) inside token range [lo_tok, hi_tok]."""
+    edits = []
+    loops = rtok.loops_in(toks, body_lo_tok, body_hi_tok)
+    if spec is not None and spec.nloops is not None and spec.nloops != len(loops):
+        raise Undecided('anchor-lost', 'fn %s: %d loops, sidecar expects %d' % (name, len(loops), spec.nloops))
+    lo, hi = toks[lo_tok].start, toks[hi_tok].end
+    targeted = []
+    if spec is not None:
+        for (ordinal, prefix), text in sorted(spec.loops.items(), key=lambda kv: kv[0][0]):
+            target = None
+            if prefix is None:
+                if ordinal < 1 or ordinal > len(loops):
+                    raise Undecided('anchor-lost', 'fn %s: loop %d not present' % (name, ordinal))
+                target = loops[ordinal - 1]
+            else:
+                want = norm_ws(prefix)
+                hits = [lp for lp in loops
+                        if norm_ws(src[toks[lp[0]].start:toks[lp[1]].end]).startswith(want)]
+                if 1 <= ordinal <= len(loops) and loops[ordinal - 1] in hits:
+                    target = loops[ordinal - 1]
+                elif len(hits) == 1:
+                    target = hits[0]
+                elif len(hits) == 0:
+                    # the loop this invariant belongs to is gone: nothing to annotate; the
+                    # function's postconditions decide whether that matters
+                    ex.notes.append('fn %s: loop `%s` not present, its invariant was not injected' % (name, prefix))
+                    continue
+                else:
+                    raise Undecided('anchor-lost', 'fn %s: loop `%s` is ambiguous' % (name, prefix))
+            targeted.append(target)
+            edits.append((toks[target[1]].start, 0, '\n' + text, 'inject:loop%d' % ordinal))
+        bare = [lp for lp in loops if lp not in targeted]
+        if bare:
+            # loops the sidecar has no invariant for (new or rewritten code): let Verus treat them as
+            # havoc; failures that follow are only reported when a concrete witness confirms them
+            ex.unannotated.setdefault(name, []).extend('%s:%d' % (relpath, toks[lp[0]].line) for lp in bare)
+        for where, occ, anchor, text in spec.anchors:
+            pos = find_anchor(src, toks[body_lo_tok].start, toks[body_hi_tok].end, anchor, occ)
+            if pos is None and where.endswith('?'):
+                ex.notes.append('fn %s: optional anchor `%s` not present, hint not injected' % (name, anchor))
+                continue
+            if pos is None:
+                raise Undecided('anchor-lost', 'fn %s: anchor `%s` #%d not found' % (name, anchor, occ))
+            if where.startswith('before'):
+                edits.append((pos[0], 0, text, 'inject:before'))
+            else:
+                edits.append((pos[1], 0, '\n' + text, 'inject:after'))
+        for occ, old, new, rule in spec.replace:
+            pos = find_anchor(src, lo, hi, old, occ)
+            if pos is None:
+                raise Undecided('anchor-lost', 'fn %s: rewrite target `%s` #%d not found' % (name, old, occ))
+            line = src.count('\n', 0, pos[0]) + 1
+            edits.append((pos[0], pos[1] - pos[0], new, 'rewrite:' + rule))
+            ex.rewrites.append({'rule': rule, 'where': '%s:%d' % (relpath, line), 'fn': name,
+                                'before': src[pos[0]:pos[1]], 'after': new})
+    edits.extend(auto_rewrites(src, toks, lo_tok, hi_tok, relpath, name, spec, ex))
+    return edits, loops
+
+
+def apply_edits(src, lo, hi, edits, name):
+    edits = sorted(edits, key=lambda e: (e[0], 0 if e[1] == 0 else 1))
+    pieces = []
+    cur = lo
+    for pos, dl, text, origin in edits:
+        if pos < cur:
+            raise Undecided('anchor-lost', 'fn %s: overlapping edits at byte %d' % (name, pos))
+        if pos > cur:
+            pieces.append(Piece(src[cur:pos], 'source', name, src.count('\n', 0, cur) + 1))
+        pieces.append(Piece(text, origin, name))
+        cur = pos + dl
+    if cur < hi:
+        pieces.append(Piece(src[cur:hi], 'source', name, src.count('\n', 0, cur) + 1))
+    return pieces
+
+
+def extract_fragment(src, toks, relpath, item, spec, ex):
+    """Rule R7: a contiguous statement range of a function, wrapped in a generated fn whose
+    parameters / result are given by unit.toml.  Nothing inside the range changes."""
+    name = item['as']
+    k = locate_fn(toks, relpath, item['fn'], item)
+    s, ob, cb = rtok.fn_extent(toks, k)
+    pos = find_anchor(src, toks[ob].end, toks[cb].start, item['start'], item.get('start_occurrence', 1))
+    if pos is None:
+        raise Undecided('anchor-lost', 'fragment %s: start anchor not found in fn %s' % (name, item['fn']))
+    fs = next(i for i in range(ob, cb + 1) if toks[i].start >= pos[0])
+    if 'through' in item:
+        p2 = find_anchor(src, pos[0], toks[cb].start, item['through'], 1)
+        if p2 is None:
+            raise Undecided('anchor-lost', 'fragment %s: through anchor not found' % name)
+        ls = next(i for i in range(fs, cb + 1) if toks[i].start >= p2[0])
+        fe = stmt_end(toks, ls, cb - 1)
+    else:
+        fe = stmt_end(toks, fs, cb - 1)
+    # frame claim: listed identifiers are not read after the fragment
+    for ident in item.get('dead_after', []):
+        for t in toks[fe + 1:cb]:
+            if t.kind == 'ident' and t.text == ident:
+                raise Undecided('frame-lost', 'fragment %s: `%s` is used again at %s:%d, after the fragment; the '
+                                'claim that the rest of fn %s depends on it only through the fragment result no '
+                                'longer holds' % (name, ident, relpath, t.line, item['fn']))
+    edits, loops = region_edits(src, toks, relpath, name, spec, ex, fs, fe, fs, fe)
+    header = 'fn %s%s(%s) -> (%s: %s)\n%s{\n' % (name, item.get('generics', ''), item['params'],
+                                                (spec.ret if spec and spec.ret else 'r'), item['ret'],
+                                                (spec.sig if spec else ''))
+    pieces = []
+    if spec is not None and spec.attrs.strip():
+        pieces.append(Piece(spec.attrs, 'inject:attr', name))
+    if name in ex.unannotated:
+        pieces.append(Piece('#[verifier::exec_allows_no_decreases_clause]\n', 'inject:attr', name))
+    pieces.append(Piece(header, 'inject:fragment-header', name))
+    pieces += apply_edits(src, toks[fs].start, toks[fe].end, edits, name)
+    pieces.append(Piece('\n' + item['ret_expr'] + '\n}\n\n', 'inject:fragment-footer', name))
+    ex.pieces.extend(pieces)
+    ex.rewrites.append({'rule': 'R7', 'where': '%s:%d-%d' % (relpath, toks[fs].line, toks[fe].line), 'fn': item['fn'],
+                        'before': 'statements inside fn %s' % item['fn'],
+                        'after': 'wrapped as fn %s(%s) -> %s returning %s' % (name, item['params'], item['ret'],
+                                                                              item['ret_expr'])})
+    ex.functions.append({
+        'fn': name, 'fragment_of': item['fn'], 'file': relpath, 'line': toks[fs].line,
+        'token_sha256': rtok.token_hash(toks[fs:fe + 1]), 'loops': len(loops),
+        'props': (spec.props if spec else []),
+        'under_contract': bool(spec and (spec.sig.strip() or spec.loops)),
+    })
+
+
+def extract_type(src, toks, relpath, item, ex):
+    """A struct/enum definition, verbatim from the `struct`/`enum` keyword to its closing brace
+    (R3: attributes, derives, doc comments and `pub` in front of the keyword are dropped)."""
+    kw, name = item['kind'], item['type']
+    hits = [k for k in range(len(toks) - 1) if toks[k].kind == 'ident' and toks[k].text == kw
+            and toks[k + 1].kind == 'ident' and toks[k + 1].text == name
+            and not any(m in ('tests', 'test') or m.startswith('verif_') for m in enclosing_mods(toks, k))]
+    if len(hits) != 1:
+        raise Undecided('anchor-lost', '%s %s in %s: %d candidates' % (kw, name, relpath, len(hits)))
+    k = hits[0]
+    j = k
+    while toks[j].text not in ('{', ';'):
+        if toks[j].text in ('(', '['):
+            j = rtok.match_close(toks, j)
+        j += 1
+    end = rtok.match_close(toks, j) if toks[j].text == '{' else j
+    text = src[toks[k].start:toks[end].end]
+    # inner doc comments / attributes are kept as they are (comments) or dropped (#[cfg] resolved by R5 is not needed here)
+    ex.pieces.append(Piece(item.get('attrs', '') + text + '\n\n', 'source', name, toks[k].line))
+    ex.functions.append({'type': name, 'file': relpath, 'line': toks[k].line,
+                         'token_sha256': rtok.token_hash(toks[k:end + 1]), 'under_contract': False, 'fn': None,
+                         'props': []})
+
+
+def extract_fn(src, toks, relpath, item, spec, ex):
+    """Append the annotated text of one function to ex.pieces."""
+    if 'type' in item:
+        return extract_type(src, toks, relpath, item, ex)
+    if 'start' in item:
+        return extract_fragment(src, toks, relpath, item, spec, ex)
+    name = item['fn']
+    k = locate_fn(toks, relpath, name, item)
     s, ob, cb = rtok.fn_extent(toks, k)
     if item.get('drop_vis', True):
         # R3: visibility qualifiers dropped
@@ -228,11 +409,8 @@ def extract_fn(src, toks, relpath, item, spec, ex):
             else:
                 s += 1
     fn_toks = toks[s:cb + 1]
-    loops = rtok.loops_in(toks, ob, cb)
-    if spec is not None and spec.nloops is not None and spec.nloops != len(loops):
-        raise Undecided('anchor-lost', 'fn %s: %d loops, sidecar expects %d' % (name, len(loops), spec.nloops))
     lo, hi = toks[s].start, toks[cb].end
-    edits = []   # (pos, del_len, text, origin)
+    edits, loops = region_edits(src, toks, relpath, name, spec, ex, s, cb, ob, cb)
 
     if spec is not None:
         # return value name
@@ -271,71 +449,49 @@ def extract_fn(src, toks, relpath, item, spec, ex):
             edits.append((sig_end, 0, '\n' + spec.sig, 'inject:sig'))
         if spec.body_prefix.strip():
             edits.append((toks[ob].end, 0, '\n' + spec.body_prefix, 'inject:body'))
-        for (ordinal, prefix), text in sorted(spec.loops.items(), key=lambda kv: kv[0][0]):
-            target = None
-            if prefix is None:
-                if ordinal < 1 or ordinal > len(loops):
-                    raise Undecided('anchor-lost', 'fn %s: loop %d not present' % (name, ordinal))
-                target = loops[ordinal - 1]
-            else:
-                want = norm_ws(prefix)
-                hits = [lp for lp in loops
-                        if norm_ws(src[toks[lp[0]].start:toks[lp[1]].end]).startswith(want)]
-                if 1 <= ordinal <= len(loops) and loops[ordinal - 1] in hits:
-                    target = loops[ordinal - 1]
-                elif len(hits) == 1:
-                    target = hits[0]
-                elif len(hits) == 0:
-                    # the loop this invariant belongs to is gone: nothing to annotate; the
-                    # function's postconditions decide whether that matters
-                    ex.notes.append('fn %s: loop `%s` not present, its invariant was not injected' % (name, prefix))
-                    continue
+    impl_hdr = None
+    if item.get('keep_impl'):
+        # R8: the method stays inside an impl block with the original header
+        h = rtok.enclosing_impl(toks, k)
+        impl_hdr = src[h[0][0].start:toks[h[1]].end]
+    if item.get('lift_self'):
+        # R6: inherent method of a foreign type lifted to a free fn: `&self`/`self` -> named parameter
+        pname, ptype = item['lift_self']
+        first = True
+        for i in range(k, cb + 1):
+            if toks[i].kind == 'ident' and toks[i].text == 'self':
+                if first:
+                    a = i - 1 if toks[i - 1].text == '&' else i
+                    if toks[a - 1].kind == 'life':
+                        a -= 1
+                    new = '%s: %s' % (pname, ptype)
+                    edits.append((toks[a].start, toks[i].end - toks[a].start, new, 'rewrite:R6'))
+                    ex.rewrites.append({'rule': 'R6', 'where': '%s:%d' % (relpath, toks[i].line), 'fn': name,
+                                        'before': src[toks[a].start:toks[i].end], 'after': new})
+                    first = False
                 else:
-                    raise Undecided('anchor-lost', 'fn %s: loop `%s` is ambiguous' % (name, prefix))
-            edits.append((toks[target[1]].start, 0, '\n' + text, 'inject:loop%d' % ordinal))
-        for where, occ, anchor, text in spec.anchors:
-            pos = find_anchor(src, toks[ob].end, toks[cb].start, anchor, occ)
-            if pos is None and where.endswith('?'):
-                ex.notes.append('fn %s: optional anchor `%s` not present, hint not injected' % (name, anchor))
-                continue
-            if pos is None:
-                raise Undecided('anchor-lost', 'fn %s: anchor `%s` #%d not found' % (name, anchor, occ))
-            if where.startswith('before'):
-                edits.append((pos[0], 0, text, 'inject:before'))
-            else:
-                edits.append((pos[1], 0, '\n' + text, 'inject:after'))
-        for occ, old, new, rule in spec.replace:
-            pos = find_anchor(src, lo, hi, old, occ)
-            if pos is None:
-                raise Undecided('anchor-lost', 'fn %s: rewrite target `%s` #%d not found' % (name, old, occ))
-            line = src.count('\n', 0, pos[0]) + 1
-            edits.append((pos[0], pos[1] - pos[0], new, 'rewrite:' + rule))
-            ex.rewrites.append({'rule': rule, 'where': '%s:%d' % (relpath, line), 'fn': name,
-                                'before': src[pos[0]:pos[1]], 'after': new})
-    # automatic token-level rewrites
-    auto = auto_rewrites(src, toks, s, cb, relpath, name, spec, ex)
-    edits.extend(auto)
-
-    edits.sort(key=lambda e: (e[0], 0 if e[1] == 0 else 1))
-    # overlapping check
-    last_end = lo
+                    edits.append((toks[i].start, 4, pname, 'rewrite:R6'))
+        if item.get('generics'):
+            edits.append((toks[k + 1].end, 0, item['generics'], 'rewrite:R6'))
+    if item.get('rename'):
+        # the extracted fn is given a distinct name (two copies of one helper in two files)
+        edits.append((toks[k + 1].start, len(toks[k + 1].text), item['rename'], 'rewrite:R6'))
+        ex.rewrites.append({'rule': 'R6', 'where': '%s:%d' % (relpath, toks[k].line), 'fn': name,
+                            'before': 'fn ' + name, 'after': 'fn ' + item['rename']})
     pieces = []
     if spec is not None and spec.attrs.strip():
-        pieces.append(Piece(spec.attrs, 'inject:attr', name))
-    cur = lo
-    for pos, dl, text, origin in edits:
-        if pos < cur:
-            raise Undecided('anchor-lost', 'fn %s: overlapping edits at byte %d' % (name, pos))
-        if pos > cur:
-            pieces.append(Piece(src[cur:pos], 'source', name, src.count('\n', 0, cur) + 1))
-        pieces.append(Piece(text, origin, name))
-        cur = pos + dl
-    if cur < hi:
-        pieces.append(Piece(src[cur:hi], 'source', name, src.count('\n', 0, cur) + 1))
+        pieces.append(Piece(spec.attrs, 'inject:attr', item.get('rename', name)))
+    if name in ex.unannotated:
+        pieces.append(Piece('#[verifier::exec_allows_no_decreases_clause]\n', 'inject:attr', item.get('rename', name)))
+    if impl_hdr:
+        pieces.append(Piece(impl_hdr + '\n', 'source', name, toks[k].line))
+    pieces += apply_edits(src, lo, hi, edits, item.get('rename', name))
+    if impl_hdr:
+        pieces.append(Piece('\n}', 'source', name))
     pieces.append(Piece('\n\n', 'glue', name))
     ex.pieces.extend(pieces)
     ex.functions.append({
-        'fn': name, 'file': relpath, 'line': toks[k].line,
+        'fn': item.get('rename', name), 'file': relpath, 'line': toks[k].line,
         'token_sha256': rtok.token_hash(fn_toks), 'loops': len(loops),
         'props': (spec.props if spec else []),
         'under_contract': bool(spec and (spec.sig.strip() or spec.loops)),
@@ -471,7 +627,7 @@ def extract_unit(unit_dir):
             except rtok.TokenizeError as e:
                 raise Undecided('unsupported', 'tokenize %s: %s' % (rel, e))
         src, toks = cache[rel]
-        key = item.get('as', item['fn'])
+        key = item.get('as') or item.get('rename') or item.get('fn') or item.get('type')
         spec = specs.get(key)
         used.add(key)
         try:
@@ -609,7 +765,7 @@ def run_verus(gen_path, extra_args, rlimit=None, timeout=1500, only_fn=None):
 
 
 VERIF_MSGS = (
-    'postcondition not satisfied', 'precondition not satisfied', 'assertion failed',
+    'postcondition not satisfied', 'precondition not satisfied', 'precondition not met', 'assertion failed',
     'invariant not satisfied', 'possible arithmetic underflow/overflow', 'decreases not satisfied',
     'possible division by zero', 'loop invariant', 'recommendation not met', 'could not prove termination',
     'unreachable', 'cannot show invariant', 'assert_by', 'assertion', 'possible bit shift',
